@@ -37,7 +37,8 @@ def resolve(node, this, aliases):
         if t[0] != 'arr':
             raise Fault('index-of-non-array', str(node.array))
         idx = node.index
-        if type(idx).__name__ == 'HplLiteral' and isinstance(idx.value, int) and not isinstance(idx.value, bool):
+        if type(idx).__name__ == 'HplLiteral' and isinstance(idx.value, (int, float)) and not isinstance(idx.value, bool):
+            # any number literal is a literal index, however it is spelled (3, 3.0, 3e0)
             if t[2] >= 0 and idx.value >= t[2]:
                 raise Fault('index-out-of-range', str(idx.value))
         return t[1]
